@@ -13,9 +13,8 @@ read endpoint runs through `Server.blockingQuery`, for a request with `MinQueryI
 The store moves through states `0 … last` (one per committed write). The loop does not see every state:
 it evaluates at the state current when it runs, sleeps until a channel of the WatchSet it built there is
 closed, and re-evaluates at whatever state is current when it wakes (`sched`, any state not earlier than
-the one that closed the channel). `ErrNotFound` / `ErrNotChanged` only raise `minQueryIndex` to the index
-just reported when the result did not change; they are not modelled (they make the loop block longer on
-an unchanged result, never on a changed one).
+the one that closed the channel). `ErrNotFound` / `ErrNotChanged` raise `minQueryIndex` to the index
+just reported when the result did not change; they are modelled separately below (`loopF` / `runF`).
 -/
 namespace CV.BQ
 
